@@ -1,7 +1,7 @@
 (* C06 -- stack operations behave as pest specifies and fail gracefully.
    Statements only; every proof is `exact` of a lemma proved elsewhere. *)
 From Coq Require Import ZArith.
-From PT Require Import Model.MachInt Model.SliceSpec Gen.SliceGen Proofs.SliceProofs.
+From PT Require Import Model.MachInt Model.SliceSpec Gen.SliceGen Proofs.SliceProofs Proofs.SliceSpecProofs.
 Local Open Scope Z_scope.
 
 (* T1: the index functions *as regenerated from main/src/parser_state.rs* compute the slice spec
